@@ -196,6 +196,57 @@ impl<K: SimKernel<D>, const D: usize> Monitor<K, D> for C16 {
                             violation("C16", "periodic-euler-characteristic", ctx.step, "mode=periodic".into(), format!("V = {}, F = {}: chi = V - F/2 = {} (expected 0)", post.verts.len(), post.cells.len(), post.verts.len() as i64 - post.cells.len() as i64 / 2)),
                         );
                     }
+                    // Euler characteristic of the quotient complex, edges counted with the lattice
+                    // offsets the cells carry: an edge is a vertex pair together with the relative
+                    // image offset between its ends (so two edges between the same two vertices that
+                    // wrap around the torus differently stay distinct). chi = V - E + F must be 0.
+                    if D == 2
+                        && open == 0
+                        && let Some(dt) = ctx.world.objs.first().and_then(|o| o.as_ref())
+                    {
+                        let mut edges: std::collections::BTreeSet<(u64, u64, Vec<i32>)> = std::collections::BTreeSet::new();
+                        let mut have_offsets = true;
+                        let mut listing: Vec<String> = Vec::new();
+                        for (_, cell) in dt.cells() {
+                            if listing.len() < 40 {
+                                listing.push(format!("{:x?}@{:?}", cell.vertices().iter().map(|k| slotmap::Key::data(k).as_ffi() & 0xffff).collect::<Vec<_>>(), cell.periodic_vertex_offsets()));
+                            }
+                            let vs: Vec<u64> = cell.vertices().iter().map(|k| slotmap::Key::data(k).as_ffi()).collect();
+                            let Some(offs) = cell.periodic_vertex_offsets() else {
+                                have_offsets = false;
+                                break;
+                            };
+                            for i in 0..vs.len() {
+                                for j in (i + 1)..vs.len() {
+                                    let (a, b, oa, ob) = if vs[i] <= vs[j] { (vs[i], vs[j], &offs[i], &offs[j]) } else { (vs[j], vs[i], &offs[j], &offs[i]) };
+                                    let mut rel: Vec<i32> = (0..D).map(|x| i32::from(ob[x]) - i32::from(oa[x])).collect();
+                                    if a == b {
+                                        // a loop edge: its two orientations are the same edge
+                                        if let Some(first) = rel.iter().find(|x| **x != 0)
+                                            && *first < 0
+                                        {
+                                            for x in rel.iter_mut() {
+                                                *x = -*x;
+                                            }
+                                        }
+                                    }
+                                    edges.insert((a, b, rel));
+                                }
+                            }
+                        }
+                        if have_offsets {
+                            ctx.stats.evaluations += 1;
+                            let (v, e, f) = (post.verts.len() as i64, edges.len() as i64, post.cells.len() as i64);
+                            if v - e + f != 0 {
+                                push_violation(
+                                    ctx.violations,
+                                    violation("C16", "periodic-quotient-not-a-closed-torus", ctx.step, format!("mode=periodic|square={}", t.periods.windows(2).all(|w| w[0] == w[1])), format!("V = {v}, E = {e} (edges counted with their lattice offsets), F = {f}: chi = {} (expected 0); periods {:?}; cells {}", v - e + f, t.periods, listing.join(" "))),
+                                );
+                            }
+                        } else {
+                            ctx.stats.bump("c16.periodic_result_without_offsets");
+                        }
+                    }
                     // each input point once: a missing input must coincide (mod periods) with a stored vertex
                     let Op::New { opts, .. } = &op else { return };
                     for i in verts.iter().filter(|_| opts.dedup != "Epsilon") {
